@@ -882,7 +882,21 @@ def num_bits(n, v):
 
 
 # ---------------------------------------------------------------- raw blocks
-def make_raw_block(w, used, lens_list, selectors, syms, extra_selectors=0):
+def run_syms(n):
+    """bijective base-2 digits (RUNA=0, RUNB=1) of a run length n >= 1."""
+    out = []
+    while n > 0:
+        if n & 1:
+            out.append(0)
+            n = (n - 1) >> 1
+        else:
+            out.append(1)
+            n = (n - 2) >> 1
+    return out
+
+
+def make_raw_block(w, used, lens_list, selectors, syms, extra_selectors=0,
+                   sent_syms=None):
     """Append a block given directly as a symbol stream (bzip2 numbering,
     WITHOUT the EOB, which is appended).  The last column is whatever the
     symbols decode to; origPtr is chosen so that un-RLE1 succeeds; the CRC is
@@ -915,7 +929,10 @@ def make_raw_block(w, used, lens_list, selectors, syms, extra_selectors=0):
     for i in range(16):
         if big & (1 << (15 - i)):
             w.put(16, small[i])
-    allsyms = list(syms) + [eob]
+    # sent_syms: transmit these symbols instead (CRC / origPtr stay those of
+    # `syms`): a block that decodes to `syms`' content only under a faulty
+    # reading of the symbols actually present
+    allsyms = list(sent_syms if sent_syms is not None else syms) + [eob]
     ng = (len(allsyms) + 49) // 50
     sel = list(selectors)[:ng] + [0] * max(0, ng - len(selectors))
     sel += [0] * extra_selectors
